@@ -94,6 +94,7 @@ def correspondence(ctx):
     lines = []
     for i in range(1500 if quick else 40000):
         lines.append("est %s %s" % (rng.choice(["cctx", "cstream"]), ",".join(map(str, rand_cparams(rng)))))
+    lines += ["estl %s %d" % (k, L) for k in ("cctx", "cstream") for L in range(1, 23)]
     co, mo, rc, err = zv.differential(hx_ws(), "mem", lines, timeout=1200)
     ev += len(lines); distinct |= set(lines)
     for ln, a, b in zip(lines, co, mo):
@@ -154,6 +155,7 @@ def correspondence(ctx):
     # driver comparison
     dl, meta = [], []
     prev_oe = {}
+    stats_lv = [0]
     for ln, k, o in uselines:
         m = re.match(r"use (\d+) rc=(\S+) rp=(\S+) lo64=(\d+) size=(\d+) fresh=(\d) need=(\d+) trace=(\S+) oe=(\d+) te=(\d+) as=(\d+) failed=(\d) dur=(\d+) rt=(\d)", o)
         if not m:
@@ -167,6 +169,19 @@ def correspondence(ctx):
                 ctx.violation("%s context %s use %d of [%s]: %s (round trip %s) need=%s size=%s" % ("static (estimated size)" if isstatic else "heap", "refused" if g[1] != "ok" else "corrupted", k + 1, ln[:160], g[1], g[13], g[6], g[4]),
                               dict(kind="monitor", op=ln, use=k, result=o))
                 continue
+        ml_ = re.fullmatch(r"100=(\d+)", ln.split()[7 + 3 * (k % int(ln.split()[6]))]) if isstatic and ln.split()[2] == "0" else None
+        if ml_ and g[1] == "ok" and 1 <= int(ml_.group(1)) <= 22:
+            # hypothesis of Props.C14.level_covers: the applied parameters are dominated by the row of (level, source-size tier) the estimate looks at
+            lvl = int(ml_.group(1)); rp = [int(x) for x in g[2].split(",")]
+            srcsize = int(ln.split()[7 + 3 * (k % int(ln.split()[6])) + 1])
+            tier = 0 if srcsize <= 16384 else 1 if srcsize <= 131072 else 2 if srcsize <= 262144 else 3
+            row = ctx.gen["tables"]["adjRows"][tier][lvl]
+            rowlog = max(4, min(row[3], 6))
+            hcap = min(row[2], 24 + rowlog) if (rp[5] and 3 <= row[6] <= 5) else row[2]
+            if not (rp[0] <= row[0] and rp[1] <= row[1] and rp[2] <= hcap and rp[3] == row[4] and rp[4] == row[6] and rp[6] == 0):
+                ctx.violation("applied parameters at level %d, %d bytes are not dominated by the row ZSTD_estimateCCtxSize sizes (tier %d): applied wl,cl,hl,mm,strat = %s, row = %s" % (lvl, srcsize, tier, rp[:5], row),
+                              dict(kind="oracle-validity(level_covers)", op=ln, use=k, result=o), no_input=True)
+            stats_lv[0] += 1
         if isstatic and g[12] != "0":
             ctx.violation("static context counts oversized-workspace rounds (dur=%s at use %d): %s" % (g[12], k + 1, ln[:160]), dict(kind="tie-reset-decision", op=ln, use=k, result=o))
         if g[7] == "-":
@@ -332,7 +347,7 @@ def correspondence(ctx):
     return dict(evaluations=ev, distinct_nontrivial=len(distinct),
                 rule="est lines (random cParams x {cctx,cstream}); ws scenarios (static/heap x one-shot/stream x misalignment x 1..150 uses with levels l<=L or explicit parameter sets incl. LDM, row finder, maxBlockSize, external producer) "
                      "with every use compared field by field with the Lean workspace model; decoder frames (window 1 KiB..3.5 MiB incl. mantissas, FCS present/absent, single segment) x limits at / around the window; sizeof lines. distinct = distinct op lines",
-                samples=samples[:4], ws_use_lines=len(uselines), decoder_verdicts={"%s model=%s decoded=%s" % k: v for k, v in verd.items()})
+                samples=samples[:4], ws_use_lines=len(uselines), level_covers_hypothesis_checked=stats_lv[0], decoder_verdicts={"%s model=%s decoded=%s" % k: v for k, v in verd.items()})
 
 
 def replay(ctx, data):
